@@ -137,12 +137,13 @@ Proof.
   destruct (HG pd1 path) as [[[ch' pd2] path2] EG]. rewrite EG. cbn [bind]. eexists. reflexivity.
 Qed.
 
-(* the whole transform pass (implicit tag, attribute merge, lorem header, xsl, label, BEM) is total *)
-Theorem transform_list_ok : forall cfg l, returns_ok (transform_list cfg l).
+(* the whole transform pass after the lorem draws (implicit tag, attribute merge, lorem name/attribute part, xsl,
+   label, BEM) is total; the drawing pass lorem_fill is proofs/LoremProofs.v *)
+Theorem transform_forest_ok : forall cfg l, returns_ok (transform_forest cfg l).
 Proof.
   intros cfg. induction l as [|c r IH].
   - eexists. reflexivity.
-  - cbn [transform_list].
+  - cbn [transform_forest].
     destruct (transform_tree_ok c cfg None true false []) as [[[c' pd] pth] E]. rewrite E. cbn [bind].
     destruct IH as [r' Er]. rewrite Er. cbn [bind]. eexists. reflexivity.
 Qed.
